@@ -9,3 +9,4 @@ import Sessions.Proofs.Inv.All
 import Sessions.Proofs.Local.All
 import Sessions.Props
 import Sessions.Proofs.More.All
+import Sessions.Proofs.Global.All
